@@ -71,6 +71,43 @@ func funcKernel(rel, fn, leanName, params, resultTy string, sp Spec) func() stri
 	}
 }
 
+// loopBodyKernel translates the body of the unique `for` statement of fn whose header source contains marker;
+// falling off the end of the body yields `tail`.
+func loopBodyKernel(rel, fn, marker, leanName, params, resultTy, tail string, sp Spec) func() string {
+	return func() string {
+		fd := mustFunc(rel, fn)
+		t := &tr{sp: sp}
+		var body *ast.BlockStmt
+		n := 0
+		ast.Inspect(fd.Body, func(nd ast.Node) bool {
+			switch f := nd.(type) {
+			case *ast.ForStmt:
+				hdr := ""
+				if f.Init != nil {
+					hdr += src(f.Init)
+				}
+				if f.Cond != nil {
+					hdr += "; " + src(f.Cond)
+				}
+				if strings.Contains(hdr, marker) {
+					body = f.Body
+					n++
+				}
+			case *ast.RangeStmt:
+				if strings.Contains(src(f.X), marker) {
+					body = f.Body
+					n++
+				}
+			}
+			return true
+		})
+		if n != 1 {
+			panic(bail{fmt.Sprintf("%s: expected exactly one loop over %q in %s, found %d", rel, marker, fn, n)})
+		}
+		return fmt.Sprintf("/-- generated from %s func %s: body of the loop over `%s` -/\ndef %s %s : %s :=\n  %s\n", rel, fn, marker, leanName, params, resultTy, t.block(body.List, tail, "  "))
+	}
+}
+
 // exprKernel translates the right-hand side of the first assignment to `lhs` inside fn.
 func assignKernel(rel, fn, lhs, leanName, params, resultTy string, sp Spec) func() string {
 	return func() string {
